@@ -576,6 +576,17 @@ class LinEval:
             self.sizes[text] = z3.Int(f"size<{text}>")
         return self.sizes[text]
 
+    def ev_structural(self, n):
+        """sums / differences are followed structurally, every other sub-expression is one opaque non-negative size (by source text)"""
+        if isinstance(n, ast.Constant) and isinstance(n.value, int) and not isinstance(n.value, bool):
+            return z3.IntVal(n.value)
+        if isinstance(n, ast.BinOp) and isinstance(n.op, (ast.Add, ast.Sub)):
+            l, r = self.ev_structural(n.left), self.ev_structural(n.right)
+            return l + r if isinstance(n.op, ast.Add) else l - r
+        if any(isinstance(x, ast.Name) and x.id in self.env for x in ast.walk(n)):
+            raise OutsideSubset(f"loop variable in a slice bound: {_dotted(n)}")
+        return self.size(_dotted(n))
+
     def ev(self, n, opaque_ok=True):
         if isinstance(n, ast.Constant) and isinstance(n.value, int) and not isinstance(n.value, bool):
             return z3.IntVal(n.value)
@@ -672,9 +683,26 @@ class Coverage:
                     if guaranteed and en is not None:
                         ok = True
                         side.append(f"`{_dotted(st.iter.args[0].value)}` has at least {en[1]} entries (line {st.lineno})")
+                    es = _enumerate_sym_slice(st) if en is None else None
+                    if guaranteed and es is not None:
+                        # the bounds must keep their value between the allocation and the loop: no name in them is re-bound in between
+                        names = {x.id for e in es for x in ast.walk(e) if isinstance(x, ast.Name)}
+                        shape_names = {x.id for x in ast.walk(call) if isinstance(x, ast.Name)}
+                        for prev in rest[:rest.index(st)] if st in rest else [None]:
+                            if prev is None:
+                                raise OutsideSubset("symbolic slice bounds in a nested loop")
+                            for x in ast.walk(prev):
+                                if isinstance(x, ast.Name) and isinstance(x.ctx, ast.Store) and x.id in (names | shape_names):
+                                    raise OutsideSubset(f"`{x.id}` is re-bound between the allocation and the loop (line {x.lineno})")
+                        ok = True
+                        side.append(f"`{_dotted(st.iter.args[0].value)}` has at least `{_dotted(es[1])}` entries, i.e. the file is not truncated (line {st.lineno})")
                     collect(st.body, loops + [st], ok)
                 elif isinstance(st, ast.With):
                     collect(st.body, loops, guaranteed)
+                elif isinstance(st, ast.If) and guaranteed and _same_store_in_every_branch(st, arr) is not None:
+                    # if / elif / else whose every branch assigns the same element(s): a write on every path
+                    a0 = _same_store_in_every_branch(st, arr)
+                    writes.append((a0, loops, _flatten_subscript(a0.targets[0])[1]))
                 elif isinstance(st, (ast.If, ast.While, ast.Try)):
                     for sub in ("body", "orelse", "finalbody"):
                         collect(getattr(st, sub, []) or [], loops, False)
@@ -748,8 +776,11 @@ class Coverage:
                 v, k = z3.Int(f"v_{tname}_{l.lineno}"), z3.Int(f"k_{tname}_{l.lineno}")
                 a = l.iter.args
                 lo, st_ = z3.IntVal(0), z3.IntVal(1)
+                es = _enumerate_sym_slice(l) if en is None else None
                 if en is not None:
                     hi = z3.IntVal(en[1] - en[0])
+                elif es is not None:
+                    hi = le.ev_structural(es[1]) - le.ev_structural(es[0])
                 elif len(a) == 1:
                     hi = le.ev(a[0])
                 else:
@@ -833,6 +864,48 @@ def _enumerate_const_slice(st):
     if not (isinstance(st.target, ast.Tuple) and len(st.target.elts) == 2 and isinstance(st.target.elts[0], ast.Name)):
         return None
     return lo.value, hi.value
+
+
+def _enumerate_sym_slice(st):
+    """`for i, x in enumerate(X[lo:hi])` with bound EXPRESSIONS -> (lo, hi) nodes, else None. The loop runs hi - lo times when X has hi entries."""
+    it = st.iter
+    if not (isinstance(it, ast.Call) and _dotted(it.func) == "enumerate" and len(it.args) == 1 and not it.keywords):
+        return None
+    a = it.args[0]
+    if not (isinstance(a, ast.Subscript) and isinstance(a.slice, ast.Slice) and a.slice.step is None and a.slice.lower is not None and a.slice.upper is not None):
+        return None
+    if not (isinstance(st.target, ast.Tuple) and len(st.target.elts) == 2 and isinstance(st.target.elts[0], ast.Name)):
+        return None
+    return a.slice.lower, a.slice.upper
+
+
+def _same_store_in_every_branch(st, arr):
+    """if / elif / else: every branch has (at its top level) an assignment `arr[<same index text>] = ...` -> one of those assignments."""
+    branches, node = [], st
+    while True:
+        branches.append(node.body)
+        if len(node.orelse) == 1 and isinstance(node.orelse[0], ast.If):
+            node = node.orelse[0]
+            continue
+        if not node.orelse:
+            return None
+        branches.append(node.orelse)
+        break
+    found = []
+    for b in branches:
+        hit = None
+        for x in b:
+            if isinstance(x, ast.Assign) and len(x.targets) == 1 and isinstance(x.targets[0], ast.Subscript):
+                root, _ = _flatten_subscript(x.targets[0])
+                if isinstance(root, ast.Name) and root.id == arr:
+                    hit = x
+                    break
+        if hit is None:
+            return None
+        found.append(hit)
+    if len({ast.dump(f.targets[0]) for f in found}) != 1:
+        return None
+    return found[0]
 
 
 def poison_broad():
